@@ -47,8 +47,23 @@ type PoliciesData struct {
 }
 
 type StreamsData struct {
+	// stream is replaced on every reload while request workers, the error handler and the metric
+	// updates read it: access goes through getStream / setStream
 	stream        *streams.Stream
+	streamMutex   sync.RWMutex
 	flowValidator *validation.Validator
+}
+
+func (sd *StreamsData) getStream() *streams.Stream {
+	sd.streamMutex.RLock()
+	defer sd.streamMutex.RUnlock()
+	return sd.stream
+}
+
+func (sd *StreamsData) setStream(stream *streams.Stream) {
+	sd.streamMutex.Lock()
+	defer sd.streamMutex.Unlock()
+	sd.stream = stream
 }
 
 type HandlingDataManager struct {
@@ -104,7 +119,7 @@ func (rd *HandlingDataManager) Setup(telemetryWriter *logging.LunarTelemetryWrit
 		if err != nil {
 			return fmt.Errorf("failed to initialize metric manager: %w", err)
 		}
-		rd.metricManager.UpdateMetricsForFlow(rd.stream)
+		rd.metricManager.UpdateMetricsForFlow(rd.getStream())
 		return nil
 	}
 	rd.doctor.WithPolicies(rd.GetTxnPoliciesAccessor)
@@ -138,8 +153,8 @@ func (rd *HandlingDataManager) GetTxnPoliciesAccessor() *config.TxnPoliciesAcces
 }
 
 func (rd *HandlingDataManager) GetLoadedStreamsConfig() *network.ConfigurationData {
-	if rd.isStreamsEnabled && rd.stream != nil {
-		f := rd.stream.GetLoadedConfig()
+	if stream := rd.getStream(); rd.isStreamsEnabled && stream != nil {
+		f := stream.GetLoadedConfig()
 		return &f
 	}
 	return nil
@@ -233,7 +248,7 @@ func (rd *HandlingDataManager) initializeStreams() (err error) {
 	statusMsg.AddMessage(lunarEngine, "Engine: Lunar Flows")
 	_ = lunar_context.NewSharedState[int64]() // For Redis initialization
 	var previousHaProxyReq *config.HAProxyEndpointsRequest
-	if rd.stream != nil {
+	if rd.getStream() != nil {
 		previousHaProxyReq = rd.buildHAProxyFlowsEndpointsRequest()
 	}
 
@@ -256,9 +271,9 @@ func (rd *HandlingDataManager) initializeStreams() (err error) {
 	if err = stream.Initialize(); err != nil {
 		return fmt.Errorf("failed to initialize streams: %w", err)
 	}
-	rd.stream = stream
+	rd.setStream(stream)
 
-	rd.stream.InitializeHubCommunication()
+	stream.InitializeHubCommunication()
 	if err = config.WaitForProxyHealthcheck(); err != nil {
 		return fmt.Errorf("failed to wait for HAProxy healthcheck: %w", err)
 	}
@@ -333,7 +348,7 @@ func (rd *HandlingDataManager) handleOnError() func(http.ResponseWriter, *http.R
 		}
 
 		for failedTransactionID := range failedTransactions.FailedTransactions {
-			rd.stream.OnError(failedTransactionID)
+			rd.getStream().OnError(failedTransactionID)
 		}
 
 		SuccessResponse(writer, "Error logged successfully")
@@ -573,7 +588,7 @@ func (rd *HandlingDataManager) buildHAProxyFlowsEndpointsRequest() *config.HAPro
 	reqCaptureForAll := false
 
 	managedEndpoints := []*config.HAProxyEndpointData{}
-	for _, filters := range rd.stream.GetSupportedFilters() {
+	for _, filters := range rd.getStream().GetSupportedFilters() {
 		if len(filters) == 0 {
 			continue
 		}
@@ -672,6 +687,6 @@ func (rd *HandlingDataManager) reloadFlows() error {
 		return fmt.Errorf("failed to load metrics config: %v", err)
 	}
 
-	rd.metricManager.UpdateMetricsForFlow(rd.stream)
+	rd.metricManager.UpdateMetricsForFlow(rd.getStream())
 	return nil
 }
